@@ -188,10 +188,15 @@ def _run_whole(D):
     from .. import seams
     sim = W.begin_run(D)
     ctx = core.Ctx(PID, D, sim)
-    kind = D.pick('cfg', 'walgo', ('nsga2', 'epsmoea', 'omopso', 'smpso', 'psoga', 'sweep'))
+    kind = D.pick('cfg', 'walgo', ('nsga2', 'epsmoea', 'omopso', 'smpso', 'psoga', 'sweep', 'psoga', 'epsmoea'))
     workers = 2 + D.dec('cfg', 'workers', 3)
     use_db = D.weighted('cfg', 'store', (1, 3)) == 1
     N = 2 + D.dec('cfg', 'wN', 6)
+    # GA-on-swarm hybrids breed two children per generation from tournament winners: small swarms and constraints are where
+    # children meet (F5), so that corner is sampled more densely
+    wncons = (1 + D.dec('cfg', 'wncons', 2)) if (kind == 'psoga' and D.dec('cfg', 'wcons', 4) != 0) else None
+    if kind == 'psoga' and D.dec('cfg', 'wsmall', 2):
+        N = 2 + D.dec('cfg', 'wN', 3)
     G = 1 + D.dec('cfg', 'wG', 3)
     sut_seed = D.dec('sut', 'seed', 1 << 30)
     wev = (None, 'gradient', 'worst')[D.weighted('cfg', 'wevaluator', (3, 1, 1))] if kind in ('nsga2', 'epsmoea') else None
@@ -203,7 +208,7 @@ def _run_whole(D):
     def one(nworkers, tag, hook):
         Individual.counter = 0
         seams.RNG.begin(D, sut_seed, 0.0)
-        w = W.World(D, sim, fail='none', precision=0, with_tol=True, name='c07w')
+        w = W.World(D, sim, fail='none', precision=0, with_tol=True, ncons=wncons, name='c07w')
         db = None
         if use_db:
             db = W.fresh_db('c07w' + tag)
